@@ -126,9 +126,12 @@ enum Site {
     CommitEndOfDay,
     CancelEndOfDay,
     CommitDanglingReversal,
+    /// commit / cancel of one transaction while another one stays open (transactions_max_num 2)
+    CommitOtherOpen,
+    CancelOtherOpen,
 }
 
-const SITES: [Site; 12] = [
+const SITES: [Site; 14] = [
     Site::ReadCard,
     Site::Begin,
     Site::Commit,
@@ -141,12 +144,14 @@ const SITES: [Site; 12] = [
     Site::CommitEndOfDay,
     Site::CancelEndOfDay,
     Site::CommitDanglingReversal,
+    Site::CommitOtherOpen,
+    Site::CancelOtherOpen,
 ];
 
 /// Packets the terminal sends before the abort (position of the abort within the reply script).
 fn pre_for(site: Site, pos: usize) -> Vec<Pre> {
     let inter = |n: usize| -> Vec<Pre> { (0..n).map(|i| Pre::Intermediate { status: 0x0e + i as u8, timeout: 0 }).collect() };
-    let has_status = matches!(site, Site::ReadCard | Site::Begin | Site::Commit | Site::Cancel | Site::ConfigureEndOfDay | Site::CommitEndOfDay | Site::CancelEndOfDay | Site::ConfigureDanglingReversal | Site::CommitDanglingReversal);
+    let has_status = matches!(site, Site::ReadCard | Site::Begin | Site::Commit | Site::Cancel | Site::CommitOtherOpen | Site::CancelOtherOpen | Site::ConfigureEndOfDay | Site::CommitEndOfDay | Site::CancelEndOfDay | Site::ConfigureDanglingReversal | Site::CommitDanglingReversal);
     let has_inter = !matches!(site, Site::ConfigureSystemInfo | Site::ConfigureSetTerminalId);
     match pos {
         0 => vec![],
@@ -165,7 +170,7 @@ fn pre_for(site: Site, pos: usize) -> Vec<Pre> {
 
 pub fn run(ctx: &Ctx) -> i32 {
     let mut report = ctx.report("C20", "exploration");
-    report.rule = "all 256 result codes x 12 abort sites {read_card, begin (reservation), commit (partial reversal), cancel (pre-auth reversal), configure: system info / set terminal id / initialization / reversal of a dangling pre-authorisation / end-of-day, end-of-day inside commit and inside cancel, reversal of a dangling pre-authorisation inside commit} x position of the abort in the reply script {first reply, after 1, 2, 3 intermediate statuses, after a status information (for a reservation: one already carrying a receipt number)}; and every (code, site) again with a connection fault (close / garbage) at the acknowledgement of the first attempt of that exchange, so that the abort answers the client's retry. Oracle: the call fails and the error identifies c (ZVTError::Aborted(c) in the chain, or the text contains the specification's message for c from an independently typed table, or c as a hex/decimal token); exactly three translations: read_card+6C -> NoCardPresented, reservation+FC -> NeedsPinEntry, end-of-day+A0 -> tolerated (the caller's own result stands). Duplicate-free enumeration; non-trivial = every case.".into();
+    report.rule = "all 256 result codes x 14 abort sites {commit / cancel of one transaction while another one stays open, read_card, begin (reservation), commit (partial reversal), cancel (pre-auth reversal), configure: system info / set terminal id / initialization / reversal of a dangling pre-authorisation / end-of-day, end-of-day inside commit and inside cancel, reversal of a dangling pre-authorisation inside commit} x position of the abort in the reply script {first reply, after 1, 2, 3 intermediate statuses, after a status information (for a reservation: one already carrying a receipt number)}; and every (code, site) again with a connection fault (close / garbage) at the acknowledgement of the first attempt of that exchange, so that the abort answers the client's retry. Oracle: the call fails and the error identifies c (ZVTError::Aborted(c) in the chain, or the text contains the specification's message for c from an independently typed table, or c as a hex/decimal token); exactly three translations: read_card+6C -> NoCardPresented, reservation+FC -> NeedsPinEntry, end-of-day+A0 -> tolerated (the caller's own result stands). Duplicate-free enumeration; non-trivial = every case.".into();
     report.exhaustive = Some(true);
     report.assumptions = vec!["the pending query is answered by the terminal with an abort-shaped packet by protocol design (2.10.1) and is not an abort site; aborts during the handshake are connection failures (C09)".into()];
     assert_eq!(SPEC_MESSAGES.len(), 79);
@@ -208,6 +213,8 @@ fn one(r: &mut Report, schema: &Arc<refcodec::layout::Schema>, site: Site, code:
         Site::Begin => (vec![Call::Begin("tok".into())], 2),
         Site::Commit | Site::CommitEndOfDay | Site::CommitDanglingReversal => (vec![Call::Begin("tok".into()), Call::Commit("tok".into(), 1200)], 3),
         Site::Cancel | Site::CancelEndOfDay => (vec![Call::Begin("tok".into()), Call::Cancel("tok".into())], 3),
+        Site::CommitOtherOpen => (vec![Call::Begin("tok".into()), Call::Begin("other".into()), Call::Commit("tok".into(), 1200)], 4),
+        Site::CancelOtherOpen => (vec![Call::Begin("tok".into()), Call::Begin("other".into()), Call::Cancel("tok".into())], 4),
         _ => (vec![Call::Configure], 2),
     };
     sc.calls = calls;
@@ -216,6 +223,14 @@ fn one(r: &mut Report, schema: &Arc<refcodec::layout::Schema>, site: Site, code:
         Site::Begin => sc.plan.push(call_idx, Cmd::Reservation, abort),
         Site::Commit => sc.plan.push(call_idx, Cmd::PartialReversal, abort),
         Site::Cancel => sc.plan.push(call_idx, Cmd::PreAuthReversal, abort),
+        Site::CommitOtherOpen => {
+            sc.cfg.max_tx = 2;
+            sc.plan.push(call_idx, Cmd::PartialReversal, abort)
+        }
+        Site::CancelOtherOpen => {
+            sc.cfg.max_tx = 2;
+            sc.plan.push(call_idx, Cmd::PreAuthReversal, abort)
+        }
         Site::ConfigureSystemInfo => sc.plan.push(call_idx, Cmd::SystemInfo, abort),
         Site::ConfigureSetTerminalId => {
             sc.sim_terminal_id = "11112222".into(); // differs from the configured one: the client must set it
@@ -238,8 +253,8 @@ fn one(r: &mut Report, schema: &Arc<refcodec::layout::Schema>, site: Site, code:
         let cmd = match site {
             Site::ReadCard => Cmd::ReadCard,
             Site::Begin => Cmd::Reservation,
-            Site::Commit => Cmd::PartialReversal,
-            Site::Cancel | Site::ConfigureDanglingReversal | Site::CommitDanglingReversal => Cmd::PreAuthReversal,
+            Site::Commit | Site::CommitOtherOpen => Cmd::PartialReversal,
+            Site::Cancel | Site::CancelOtherOpen | Site::ConfigureDanglingReversal | Site::CommitDanglingReversal => Cmd::PreAuthReversal,
             Site::ConfigureSystemInfo => Cmd::SystemInfo,
             Site::ConfigureSetTerminalId => Cmd::SetTerminalId,
             Site::ConfigureInitialization => Cmd::Initialization,
